@@ -111,6 +111,7 @@ static void ts_op(int op, int64_t a, int64_t b)
             break; }
         case 5: { struct cmb_wtdsummary w; cmb_wtdsummary_initialize(&w); (void)cmb_timeseries_summarize(ts, &w);
                   (void)cmb_wtdsummary_mean(&w); (void)cmb_wtdsummary_variance(&w); (void)cmb_wtdsummary_skewness(&w); (void)cmb_wtdsummary_kurtosis(&w);
+                  (void)cmb_wtdsummary_count(&w); (void)cmb_wtdsummary_min(&w); (void)cmb_wtdsummary_max(&w);
                   cmb_wtdsummary_print(&w, devnull, true); cmb_wtdsummary_terminate(&w); break; }
         case 6: { struct cmb_timeseries *c = cmb_timeseries_create(); cmb_timeseries_initialize(c); (void)cmb_timeseries_copy(c, ts); (void)cmb_timeseries_median(c);
                   if (a & 1) {                                   /* a copy is a time series in its own right: it goes on recording */
@@ -123,7 +124,7 @@ static void ts_op(int op, int64_t a, int64_t b)
                       PROBE("util.copy_then_add");
                   }
                   cmb_timeseries_destroy(c); break; }
-        case 7: if (n > 1) { const unsigned lag = 1 + (unsigned)((uint64_t)a % (n - 1 > 64 ? 64 : n - 1)); cmb_timeseries_ACF(ts, lag, buf); } break;
+        case 7: if (n > 1) { const unsigned lag = 1 + (unsigned)((uint64_t)a % (n - 1 > 64 ? 64 : n - 1)); cmb_timeseries_ACF(ts, lag, buf); if (b & 1) cmb_timeseries_correlogram_print(ts, devnull, lag, (b & 2) ? buf : NULL); } break;
         case 8: if (n > 2) { const unsigned lag = 1 + (unsigned)((uint64_t)a % (n - 2 > 64 ? 64 : n - 2)); cmb_timeseries_PACF(ts, lag, buf, NULL); } break;
         case 9: if (n <= 64) cmb_timeseries_print(ts, devnull); (void)cmb_timeseries_min(ts); (void)cmb_timeseries_max(ts); break;
         case 10: ds_op((const struct cmb_dataset *)ts, (int)(a % 4), a, b); break;      /* the documented unweighted route */
